@@ -13,6 +13,12 @@ CHECKS = {
              text="Model checking of the implementation-shaped specs Mutex.tla/RWMutex.tla against the CsyncP monitor (mutual exclusion, occupancy) for every interleaving of critical sections of 3-5 clients, bound to the code by replaying an edge cover of TLC's state graph on the real locks under a deterministic controller and validating every recorded trace against CsyncP with TLC.", ref="§3 C01"),
  "C02": dict(engine="csync", technique="same executions as C01; CsyncP quiescence/cancellation/writer-preference conditions evaluated by TLC at controller-detected quiescent points of real executions",
              text="Liveness-as-safety: at every exact quiescent point (synctest) of every controlled execution no grantable or cancelled waiter is blocked, a cancelled waiter leaves no residue (final TryLock probes), writer preference holds; the same conditions are invariants (LibQuiet => QuietOK) of the X specs under TLC.", ref="§3 C02"),
+ "C04": dict(engine="routine", technique="TLA+ monitor RoutineP (NoOverlap, ChEarly) checked by TLC on the X spec Routine.tla and on traces of the real containers driven by TLC edge-cover schedules + seeded random schedules with instances that linger after cancellation",
+             text="Model checking of Routine.tla (one action per critical section / goroutine start / select wake-up / timer callback; environment decides when an instance returns) against RoutineP for small client programs; the same monitor judges every trace recorded from the real RoutineContainer/StateRoutineContainer stepped by the deterministic controller through an edge cover of TLC's graph and through seeded random schedules.", ref="§3 C04"),
+ "C05": dict(engine="routine", technique="same executions as C04; RoutineP cancellation-on-supersession and quiescent-survivor conditions evaluated by TLC at every call return / exact quiescent point",
+             text="After every superseding call the contexts of the instances that were inside the function are read and must be cancelled; at every exact quiescent point at most one live instance exists and it carries the stored context tag and state (QuietBad of RoutineP); the same conditions are invariants of Routine.tla under TLC.", ref="§3 C05"),
+ "C14": dict(engine="routine", technique="same executions plus sequential settled histories (driver option seq) with virtual-time backoff; RoutineP restart/retry/WaitExited/exit-callback conditions evaluated by TLC on recorded traces and on Routine.tla",
+             text="RoutineP tracks the recorded exit status (exit callbacks), rerun credits (RestartRoutine, new routine/state, SetContext(restart), elapsed backoff), WaitExited result windows and exit-callback reports; TLC evaluates them on traces of the real containers (controlled interleavings and settled sequential histories with virtual time) and on the X spec.", ref="§3 C14"),
 }
 NOT_YET = "not built yet in this session (work in progress; see DESIGN.md §6 build order)"
 
@@ -39,6 +45,7 @@ m = {
            "source_commits": hook_commits, "add_only": True},
  "engines": [
    {"name": "csync", "path": "tools/fam_csync.py", "serves_properties": ["C01", "C02"], "kind_free_text": "TLC model checking of specs/csync + controlled replay/trace validation (harness/drivers/csync.go)"},
+   {"name": "routine", "path": "tools/fam_routine.py", "serves_properties": ["C04", "C05", "C14"], "kind_free_text": "TLC model checking of specs/routine + controlled replay/trace validation (harness/drivers/routine.go)"},
  ],
  "checks": checks,
  "notes": "Every check: rebuilds the harness from /repo's working tree (-tags verif, go1.26.8), model-checks the X spec with TLC, replays TLC-generated schedules and seeded random schedules on the real code under the deterministic controller, validates the recorded ndjson traces against the P monitor with TLC. Exit 1 only for a trace of the real code rejected by TLC; exit 2 = inconclusive.",
